@@ -553,6 +553,25 @@ class Item:
                                                     f"increment placed before the body so `continue` keeps its meaning)"})
             self.text = new
 
+    def desugar_rev_range_loops(self):
+        """R1'': `for x in (A..B).rev() {` / `(A..=B).rev()` -> a counting-down while loop (Verus has no reversed ranges).
+        The counter `__r<k>` runs from B (or B + 1) down to A; `x` is bound to the decremented counter first thing in the
+        body. Only loops without `continue` in their own body are rewritten (the decrement is at the top, so `continue`
+        would keep its meaning anyway)."""
+        count = 0
+        pat = re.compile(r"for\s+(\w+)\s+in\s+\(\s*([^()]+?)\s*\.\.(=?)\s*([^()]+?)\s*\)\s*\.rev\(\)\s*\{")
+        while True:
+            m = pat.search(self.text)
+            if not m:
+                break
+            count += 1
+            ctr = f"__r{count}"
+            var, lo, incl, hi = m.group(1), m.group(2), m.group(3), m.group(4)
+            start = f"{hi} + 1" if incl else hi
+            new = f"let mut {ctr}: usize = {start};\n while {ctr} > {lo} {{ {ctr} -= 1; let {var} = {ctr};"
+            self.log.append({"rule": "R1", "what": f"`{_short(m.group(0))}` -> `{_short(new)}` (reversed range spelled as a counting-down loop)"})
+            self.text = self.text[:m.start()] + new + self.text[m.end():]
+
     def apply_rewrites(self, rewrites):
         """Sidecar-declared textual rewrites: `from` must occur exactly `count` (default 1) times, verbatim after
         whitespace normalisation of both; recorded in the evidence."""
